@@ -509,7 +509,8 @@ def model_lines(cases, ext):
 def arg_strings(r, n):
     seeds = {
         "magnet": ["magnet:?xt=urn:btih:" + "ab" * 20, "magnet:?xt=urn:btih:" + "ab" * 20 + "&dn=n&tr=http://t.example/a&x.pe=1.2.3.4:5",
-                   "magnet:?xt=urn:btih:abc", "magnet:?xt=urn:btih:" + "zz" * 20, "magnet:?xt=urn:btih:" + "\u00e9" * 20, "magnet:", "magnet:?", "http://x",
+                   "magnet:?xt=urn:btih:abc", "magnet:?xt=urn:btih:" + "ab" * 21, "magnet:?xt=urn:btih:" + "ab" * 40, "magnet:?xt=urn:btih:" + "ab" * 19,
+                   "magnet:?xt=urn:btih:" + "ab" * 20 + "c", "magnet:?xt=urn:btih:" + "zz" * 20, "magnet:?xt=urn:btih:" + "\u00e9" * 20, "magnet:", "magnet:?", "http://x",
                    "magnet:?xt=urn:btih:" + "ab" * 20 + "&x.pe=:", "magnet:?xt=urn:btih:" + "ab" * 20 + "&x.pe=a:99999", "magnet:?xt=urn:btih:" + "%41" * 40,
                    "magnet:?xt=urn:btih:" + "ab" * 20 + "&tr=::", "magnet:?xt=urn:btih:" + "a" * 39 + "%", "magnet:?xt=urn:btih:" + "\u0131" * 40, "", "x", ":",
                    "magnet:?xt=urn:btih:" + "ab" * 20 + "&so=1,2,x", "magnet:?xt=urn:btih:" + "+" * 40, "magnet:?xt=urn:btih:" + "ab" * 19 + "\u00e9"],
@@ -557,6 +558,8 @@ def arg_strings(r, n):
 
 def arg_argv(fam, s):
     """the command line that hands string s to the parser of its family"""
+    if fam == "inputpath":
+        return s          # already a full command line
     if fam == "magnet":
         return ["imdl", "torrent", "from-link", "--input", s]
     if fam == "size":
@@ -660,9 +663,11 @@ def run(ctx):
                     if data is not None else "run argv (hex-encoded in argv_hex when not UTF-8) in a directory holding a 5-byte file f"}
             if extra:
                 case.update(extra)
-            ctx.violation("oracle-failure", "imdl %s: %s on %s input (%s, %d bytes)%s" %
-                          (cmd, why, label, "stdin" if via else "path", len(data) if data is not None else 0,
-                           "" if data is None else ": " + repr(data[:60])), case, key=key)
+            if data is None:
+                summary = "imdl %s: %s for argv %r" % (cmd, why, [a[:120] for a in (argv or [])])
+            else:
+                summary = "imdl %s: %s on %s input (%s, %d bytes): %r" % (cmd, why, label, "stdin" if via else "path", len(data), data[:60])
+            ctx.violation("oracle-failure", summary, case, key=key)
 
         # ---------------- A. in-process volume over torrent bytes
         lines, meta = [], []
@@ -814,6 +819,13 @@ def run(ctx):
         extra = [("hostport-peer", s) for fam, s in args if fam == "hostport"][:ctx.n(60, 2000)] + \
                 [("url-update", s) for fam, s in args if fam == "url"][:ctx.n(40, 2000)]
         args = args + extra
+        # input targets that cannot be read: missing, a directory, a file used as a directory, a name too long, /dev/null
+        for target in ["nonexistent.torrent", ".", "/", "f/x", "/dev/null", "n" * 300, "\u00e9", "..", "v.torrent/", "-"]:
+            for cmd in CMDS:
+                av = argv_for(cmd, target)
+                if cmd == "stats":
+                    av = av[:-1] + [target]
+                args.append(("inputpath", av))
         alines = ["cli %s %s - 0" % (lib.hexs(adir), lib.hexlist(arg_argv(fam, s))) for fam, s in args]
         hook = {"magnet": "mparse", "size": "bparse", "hostport": "hpparse"}
         hl = [(fam, s) for fam, s in args if fam in hook]
@@ -827,7 +839,7 @@ def run(ctx):
             f = rep.split(" ")
             if f[0] == "OK" and f[1] in ("0", "1"):
                 why = abnormal(int(f[1]), lib.unhex(f[3]))
-                ctx.distinct(("arg", fam, f[1], len(s) > 100))
+                ctx.distinct(("arg", fam, f[1], len(s) > 100 if isinstance(s, str) else s[2]))
                 ctx.count("argclass:%s:%s" % (fam, "ok" if f[1] == "0" else "err"))
                 if why:
                     aconfirm.append((fam, s, "in-process: " + why))
@@ -838,10 +850,11 @@ def run(ctx):
             if not (rep.startswith("OK") or rep.startswith("ERR")):
                 aconfirm.append((fam, s, "parser hook " + rep[:40]))
         # real binary: every in-process hit, a sample of all argument strings, and non-UTF-8 argv (cannot be given in-process)
-        aprocs = [(fam, arg_argv(fam, s), why) for fam, s, why in aconfirm[:ctx.n(30, 400)] if len(s.encode()) < 100000]
+        aprocs = [(fam, arg_argv(fam, s), why) for fam, s, why in aconfirm[:ctx.n(30, 400)] if fam == "inputpath" or len(s.encode()) < 100000]
         for fam, s in r.sample(args, min(len(args), ctx.n(120, 1500))):
-            if len(s.encode()) < 100000:
+            if fam != "inputpath" and len(s.encode()) < 100000:
                 aprocs.append((fam, arg_argv(fam, s), None))
+        aprocs += [(fam, s, None) for fam, s in args if fam == "inputpath"]
         raw = [b"\xff", b"a\xffb", b"\xc0\xaf", b"magnet:?xt=urn:btih:" + b"ab" * 20 + b"&dn=\xff", b"\xed\xa0\x80", b"1\xffKiB", b"a\xff:1", b"path\xff", b"*\xff"]
         for fam in ("magnet", "size", "hostport", "hostport-peer", "sort", "glob", "url", "url-update"):
             for b in r.sample(raw, ctx.n(2, 9)):
